@@ -40,12 +40,14 @@ func (r *refCSS) at(i int) int { // byte at p+i or -1 at EOF
 	return -1
 }
 
-func isNL(c int) bool        { return c == '\n' || c == '\r' || c == '\f' }
-func isWSc(c int) bool       { return isNL(c) || c == ' ' || c == '\t' }
-func isDigit(c int) bool     { return c >= '0' && c <= '9' }
-func isHex(c int) bool       { return isDigit(c) || c >= 'a' && c <= 'f' || c >= 'A' && c <= 'F' }
-func isNameStart(c int) bool { return c >= 'a' && c <= 'z' || c >= 'A' && c <= 'Z' || c == '_' || c >= 0x80 }
-func isName(c int) bool      { return isNameStart(c) || isDigit(c) || c == '-' }
+func isNL(c int) bool    { return c == '\n' || c == '\r' || c == '\f' }
+func isWSc(c int) bool   { return isNL(c) || c == ' ' || c == '\t' }
+func isDigit(c int) bool { return c >= '0' && c <= '9' }
+func isHex(c int) bool   { return isDigit(c) || c >= 'a' && c <= 'f' || c >= 'A' && c <= 'F' }
+func isNameStart(c int) bool {
+	return c >= 'a' && c <= 'z' || c >= 'A' && c <= 'Z' || c == '_' || c >= 0x80
+}
+func isName(c int) bool { return isNameStart(c) || isDigit(c) || c == '-' }
 func isNonPrintable(c int) bool {
 	return c >= 0 && c <= 8 || c == 0x0B || c >= 0x0E && c <= 0x1F || c == 0x7F
 }
